@@ -332,7 +332,7 @@ fn preprocess_text_hangul(_: &hb_ot_shape_plan_t, face: &hb_font_t, buffer: &mut
                     }
 
                     continue;
-                } else if tindex == 0 && buffer.idx + 1 > buffer.len && is_t(buffer.cur(1).glyph_id)
+                } else if tindex == 0 && buffer.idx + 1 < buffer.len && is_t(buffer.cur(1).glyph_id)
                 {
                     // Mark unsafe between LV and T.
                     buffer.unsafe_to_break(Some(buffer.idx), Some(buffer.idx + 2));
